@@ -1,2 +1,97 @@
 (* C16 property theorems only. *)
 From V Require Import lib.Verdict C16.Model C16.Proofs.
+Open Scope N_scope.
+
+(* Headline.  For every finite key space, every transformation tr that (H_owned) only emits keys owned by its
+   input and (H_pure) depends on the sources only through the Fetch calls it reports, after ANY sequence of
+   source mutations (add/update/no-op update/delete/Reset on the primary, add/update/delete on the fetched
+   collections), queue deliveries in any interleaving, any iteration order of the changed-input set, and
+   handler registrations: once the derived collection's queues are empty, its contents are exactly tr applied
+   to the current inputs. *)
+Theorem C16_state_is_function :
+  forall (univ : list N) (tr : iobj -> (N -> filt -> list sobj) -> list dep * list (N * N))
+         (owner : N -> N) (valid : iobj -> Prop),
+    (forall i phi k v, valid i -> In (k, v) (snd (tr i phi)) -> owner k = fst i) ->
+    (forall i phi psi,
+        (forall d, In d (fst (tr i phi)) -> phi (d_id d) (d_filter d) = psi (d_id d) (d_filter d)) ->
+        tr i phi = tr i psi) ->
+    forall xs, Forall (ProofsInv.act_valid valid) xs ->
+    let W := run univ tr w0 xs in
+    qP W = [] -> qS W = [] ->
+    forall k, d_outputs (wD W) k =
+              match wP W (owner k) with
+              | Some i => gfind (snd (tr i (fetcher univ (wS W)))) k
+              | None => None
+              end.
+Proof. exact state_is_function. Qed.
+Print Assumptions C16_state_is_function.
+
+(* Ownership cannot be weakened to "at every instant each key is produced by at most one input" (K5):
+   a fetched owner object hands key 40 from input 1 to input 2; when the changed-input set is iterated new
+   parent first, the collection ends without key 40 although input 2 produces it. *)
+Theorem C16_owned_needed_refuted : refutes [1; 2; 3] k5_progs_owner k5_acts_owner.
+Proof. exact k5_owner_refutes. Qed.
+Print Assumptions C16_owned_needed_refuted.
+
+(* Same loss, deterministically, when the key moves between two inputs inside one Reset batch. *)
+Theorem C16_key_moves_in_batch_refuted : refutes [1; 2; 3] k5_progs_reset k5_acts_reset.
+Proof. exact k5_reset_refutes. Qed.
+Print Assumptions C16_key_moves_in_batch_refuted.
+
+(* Dependency tracking: on every reachable state, if an object of a queued secondary batch matches (old or new
+   version) a filter recorded for input a, then changedInputKeys returns a — through the reverse index for
+   key/index filters, by the full scan otherwise. *)
+Theorem C16_dependency_sound :
+  forall (univ : list N) (tr : iobj -> (N -> filt -> list sobj) -> list dep * list (N * N))
+         (owner : N -> N) (valid : iobj -> Prop),
+    (forall i phi k v, valid i -> In (k, v) (snd (tr i phi)) -> owner k = fst i) ->
+    (forall i phi psi,
+        (forall d, In d (fst (tr i phi)) -> phi (d_id d) (d_filter d) = psi (d_id d) (d_filter d)) ->
+        tr i phi = tr i psi) ->
+    forall xs, Forall (ProofsInv.act_valid valid) xs ->
+    let W := run univ tr w0 xs in
+    forall c evs e a ds,
+      d_deps (wD W) a = Some ds -> In e evs -> object_changed ds c e false = true ->
+      In a (changed_input_keys (wD W) c evs).
+Proof. exact dependency_sound. Qed.
+Print Assumptions C16_dependency_sound.
+
+(* ... and that test is the right one: if neither the old nor the new version of the object at key k matches a
+   filter, the filtered Fetch result does not change (so an input that is not recomputed saw nothing change). *)
+Theorem C16_fetch_only_changes_on_match :
+  forall univ f (C : coll) k (np : option spay),
+    (forall p, cget univ C k = Some p -> matches f (k, p) false = false) ->
+    (forall p, np = Some p -> matches f (k, p) false = false) ->
+    memb k univ = true ->
+    fetch univ f (fset C k np) = fetch univ f C.
+Proof. exact fetch_unaffected. Qed.
+Print Assumptions C16_fetch_only_changes_on_match.
+
+(* Event streams: for every subscriber (early or late), replaying what it was sent reproduces the contents,
+   after any history and schedule, with no ownership hypothesis. *)
+Theorem C16_events_replay :
+  forall (univ : list N) (tr : iobj -> (N -> filt -> list sobj) -> list dep * list (N * N)) (valid : iobj -> Prop),
+    (forall i phi k v, valid i -> In (k, v) (snd (tr i phi)) -> k <> 0) ->
+    forall xs, Forall (ProofsEvents.act_valid valid) xs ->
+    let W := run univ tr w0 xs in
+    forall h evs, In (h, evs) (d_handlers (wD W)) -> forall k, replay evs k = d_outputs (wD W) k.
+Proof. exact events_replay. Qed.
+Print Assumptions C16_events_replay.
+
+(* The table-driven transformations used by the correspondence harness satisfy the purity hypothesis. *)
+Theorem C16_table_transformations_pure :
+  forall progs i phi psi,
+    (forall d, In d (fst (tr_dsl progs i phi)) -> phi (d_id d) (d_filter d) = psi (d_id d) (d_filter d)) ->
+    tr_dsl progs i phi = tr_dsl progs i psi.
+Proof. exact tr_dsl_pure. Qed.
+Print Assumptions C16_table_transformations_pure.
+
+(* hypotheses are satisfiable by a transformation that fetches: inputs (a, 100 + a) emit key 50 + a *)
+Example C16_ownership_satisfiable : forall i phi k v,
+  owned_valid i -> In (k, v) (snd (tr_dsl owned_progs i phi)) -> (fun k => k - 50) k = fst i.
+Proof. exact owned_example. Qed.
+(* and with the other iteration order the K5 history gives the right contents *)
+Example C16_k5_depends_on_iteration_order :
+  d_outputs (wD (run [1; 2; 3] (tr_dsl (lookup_prog k5_progs_owner)) w0
+                   (firstn 6 k5_acts_owner ++ [ADeliverS [1; 2]]))) 40 = Some 7.
+Proof. exact k5_owner_other_order. Qed.
